@@ -16,6 +16,7 @@ EXPLANATION = (
     "the stored future's callback (the terms named in a core cannot be freed and have their ids recycled while "
     "the owning context lives); the core store is created per FunctionContext and there is no module- or "
     "contract-level store. It does not run query sequences or the garbage collector."
+    ' Also evaluated here: refinement exactness (C04 R04.2): refined queries keep their assertion ids and named assertions.'
 )
 ASSUMPTIONS = [
     "z3 AST ids are unique among live terms of one context",
